@@ -3,12 +3,22 @@ CHECK = {
     "rule": ("E5 scripted RNG. support: every sampler x parameter letter (chosen to hit each branch of its "
              "code) x ALL prefixes in A_u^k of the first k canonical draws (upper word forced, lower word "
              "mid-cell, never an exactly-zero canonical), then a fixed splitmix tail: value in documented "
-             "support, finite, #canonicals <= bound derived from the algorithm's acceptance probability. "
+             "support, finite, #canonicals <= bound derived from the algorithm's acceptance probability; a third "
+             "pass with lower word 0 over the letters {0, 1/4, 1/2, 3/4} EXACTLY (exact-zero canonical, dyadic "
+             "ties) for the families whose support is closed at 0 (bernoulli, selector, uniform, box, radial, "
+             "isotropic, invsquare, reciprocal, Poisson lambda<=16). Energy-loss helper: e-, e+, mu-, p, alpha "
+             "(charge 2) x 3 materials x energies x losses x steps x cuts plus exact regime ties (loss == E0, "
+             "loss == 10 Tc): model choice AND beta^2, 2 m_e beta^2 gamma^2, Tmax, Bohr variance compared with a "
+             "long double re-derivation; Urban: mean-loss identity of the constructor outputs in every branch, "
+             "operator() == loss_scaling * (excitation stage + ionisation stage) on the same words. "
              "quadrature: the midpoint lattice {(i+1/2)/2^b} of the first canonicals (2^20 quick / 2^22 "
              "thorough points) pushed through the sampler; sup-distance of the empirical CDF to the analytic "
              "CDF/PMF (independent long double code) <= L + H + 2/N with L = sum_j pieces_j/2^b_j (lattice "
              "cells cut by the level set), H = 5 sqrt(N_tail)/N (Hoeffding, for points that also used the "
-             "tail). non-trivial = a distinct (sampler case, set of non-default branch tags: retry, cached "
+             "tail); the Urban sampling stages (fast gaussian/uniform; excitation both levels fast / one fast / "
+             "one Poisson level +- a fast one; ionisation Poisson-only: P(no collision) and the single-collision "
+             "spectrum; ionisation fast regime: number of collisions above alpha E0, median of the Gaussian part) are judged the same way against their closed-form laws given the constructor outputs. "
+             "non-trivial = a distinct (sampler case, set of non-default branch tags: retry, cached "
              "value, zero-weight skipped, regime ...) pair in 'support', a distinct lattice case in "
              "'quadrature'."),
     "assumptions": [
@@ -19,18 +29,30 @@ CHECK = {
         "are invisible; points that leave the lattice (rejection retries, draws beyond the lattice "
         "dimensions) use a fixed declared splitmix64 tail selected by VERIF_SEED and are bounded with a "
         "Hoeffding term assuming that tail is as good as i.i.d.",
-        "exactly-zero canonicals (probability 2^-64) and canonicals closer than 2^-33 to 0 or 1 are not "
-        "produced in the support part",
+        "exactly-zero canonicals (probability 2^-64) are produced only for the families listed in the rule "
+        "(support closed at 0); exponential / normal / gamma / Poisson(lambda>16) / rejection and everything "
+        "built on them are NOT given u = 0 (log(0), u^(1/alpha) = 0 in the unmodified code); canonicals "
+        "closer than 2^-33 to 1 are not produced",
         "a sample equal to the open upper bound b of UniformRealDistribution after rounding "
         "(|x-b| <= 2 ulp) is tagged, not reported: it is the correctly rounded value of a point in [a,b)",
-        "EnergyLossUrbanDistribution (multi-stage compound Poisson) is checked for support, finiteness and "
-        "bounded draws only; its mean is reported in the notes, not judged (no sound variance bound)",
+        "EnergyLossUrbanDistribution (multi-stage compound Poisson): the law of the SUM of the stages has no "
+        "closed form and is not judged; instead (a) every stage branch whose law is explicit is judged against "
+        "it given xs_exc_/binding_energy_/xs_ion_ (read with -fno-access-control), (b) those constructor "
+        "outputs are judged against the model's mean-loss identity (rel. 1e-9; observed 3e-16), (c) operator() "
+        "is compared bit-for-bit with loss_scaling*(stage1+stage2). In the fast ionisation regime (xs_ion > 8) the law of the number of "
+        "collisions above alpha E0 and the median (= mean) of the Gaussian part are judged, with alpha = "
+        "(n3+8)R/(8R+n3) taken from PHYS332 Eq. 25 as restated in the code; NOT judged: the width of that "
+        "Gaussian (Eq. 19), and the case of both excitation levels in the Poisson branch with comparable weights",
         "EnergyLossHelper's regime choice is compared with the rules documented in the class comments, "
-        "skipping configurations within 1e-9 (relative) of a regime boundary; -fno-access-control is used "
-        "only to read EnergyLossUrbanDistribution's cross sections for branch tags",
+        "skipping configurations within 1e-9 (relative) of a regime boundary unless both sides of the "
+        "comparison are bit-identical input doubles (loss == 1e-5, loss == 10*cut with Tmax > cut): there the "
+        "documented operator (G4UniversalFluctuation: '<' in both places) decides; the helper's accessors are "
+        "compared with rel. tolerance 1e-12 + 2e-15/beta^2 (double rounding of 1 - 1/gamma^2)",
+        "the known finding rotate:wrong-polar-angle[renorm,y<0] is signature-specific: wrong polar angles in "
+        "the generic branch, on the axis, or in the renormalising branch with y >= 0 have their own signatures",
     ],
-    "bounds": {"quick": {"passes": "A5^4 + A9^3", "lattice_bits": 20},
-               "thorough": {"passes": "A7^6 (eloss helper cases A7^5) + A9^4", "lattice_bits": 22}},
+    "bounds": {"quick": {"passes": "A5^4 + A9^3 + Z4^3 (exact dyadic, closed-at-0 families)", "lattice_bits": 20},
+               "thorough": {"passes": "A7^6 (eloss helper cases A7^5) + A9^4 + Z4^4", "lattice_bits": 22}},
     "parts": [
         {"name": "support", "harness": "c15_samplers", "flavour": "rel", "cflags": ["-fno-access-control"],
          "shards": {"quick": 16, "thorough": 16}, "deadline": {"quick": 150, "thorough": 1100}},
